@@ -574,7 +574,7 @@ func (t *terminal) handleCmdCSI(r escapeReader) bool {
 				t.screen().eraseRegion(Region{
 					X:  0,
 					Y:  t.screen().CursorPos().Y,
-					X2: t.screen().CursorPos().X,
+					X2: t.screen().CursorPos().X + 1,
 					Y2: t.screen().CursorPos().Y + 1,
 				}, CRClear)
 			case params[0] == 2: // Erase entire line
